@@ -3,9 +3,11 @@
 # Rebuilds the engine against /repo's current working tree, then runs the check.
 # Exit: 0 held, 1 VIOLATION, 2 harness error.
 cd /verif/sim || exit 2
-if [ "$1" = "C14" ] || { [ "$1" = "replay" ] && echo "$2" | grep -q "C14-"; }; then
-  shift_args="$@"
-  exec /verif/sched/run.sh "$@"
+if [ "$1" = "C14" ]; then
+  exec /verif/sched/run.sh "${2:-${VERIF_TIER:-quick}}"
+fi
+if [ "$1" = "replay" ] && echo "$2" | grep -q "C14-"; then
+  exec /verif/sched/run.sh replay "$2"
 fi
 if ! cargo build --release >/verif/target/build.log 2>&1; then
   mkdir -p /verif/target; tail -30 /verif/target/build.log
